@@ -82,6 +82,19 @@ class C17(Prop):
             exps = range(256) if big else list(range(0, 41)) + [0x7f, 0x80, 0xfe, 0xff]
             bits |= {(e << 24) | m for e in exps for m in bm}
             bits |= {(e << 24) | rng.choice(bm + [rng.randrange(1 << 24)]) for e in range(0, 256, 1 if big else 5)}
+            # "wrap-around" words (round 10, C17r10): the mantissa's high part is shifted out of 256 bits while its low
+            # part, taken alone, would be a small admissible target — overflow must be decided on the whole mantissa
+            for e in range(30, 38):
+                keep = max(0, 35 - e)                    # mantissa bytes that survive a 256-bit mask at this exponent
+                if keep >= 3:
+                    continue
+                for lo in (1, 0x7f, 0x80, 0xff, 0x101, 0x7fff, 0x8000, 0xffff):
+                    if lo >> (8 * keep):
+                        continue
+                    for hi in (1, 0x7f, 0x80, 0xff, 0x100, 0x7fff, rng.randrange(1, 1 << (24 - 8 * keep))):
+                        m = (hi << (8 * keep)) | lo
+                        if m < (1 << 24):
+                            bits.add((e << 24) | m)
             bits |= {rng.randrange(1 << 32) for _ in range(2000 if big else 100)}
             for b in sorted(bits):
                 i += 1
